@@ -64,7 +64,11 @@ pub fn main(
     }
     quiet_panics();
     let report = Report::new(property, level, tier, seed);
-    run(&report);
+    if let Err(p) = crate::report::catch(|| run(&report)) {
+        // a panic of the harness itself is a machinery failure, never a verdict
+        eprintln!("MACHINERY-ERROR: the check body panicked: {p}");
+        std::process::exit(2);
+    }
     let code = report.finish();
     std::process::exit(code)
 }
